@@ -248,6 +248,25 @@ PROPS = {
                       'interval pairs over a bound lattice, and of point sets in every octant for all eight point types',
         'level_note': 'lattice values only',
     },
+    'C01': {
+        'sources': GEODESY,
+        'harness': 'c01_ecef.cpp',
+        'flavour': 'asan',
+        'level': 'exploration',
+        'engine': 'lattice',
+        'rule': 'full lattice ellipsoid x latitude x longitude x height; longitudes dense at the antimeridian (+-pi, '
+                '+-(pi-1e-k) k=3..15), at 0 and +-pi/2; Cartesian points on the exact antimeridian half-plane; forward map '
+                'checked against the definition (ellipsoid equation, normal direction, h n offset) and an independent '
+                'long-double reference, both round trips against the stated tolerances. non-trivial = longitude within '
+                '1e-2 rad of 0, +-pi/2, +-pi or |latitude| > 1.55 rad, and every exact-antimeridian Cartesian point.',
+        'assumptions': ['termination is observed by the per-case watchdog (20 s)'],
+        'tiers': {'quick': {'deadline': 300}, 'thorough': {'deadline': 3000}},
+        'technique': 'bounded-exhaustive input/configuration lattice enumeration on the real code, definitional oracle in long double',
+        'level_text': 'complete enumeration of a lattice that is dense exactly where the conversion formulas change regime '
+                      '(antimeridian, prime and 90-degree meridians, high latitudes, negative heights, sphere and extreme '
+                      'flattenings); every point checked against the definition of the normal construction',
+        'level_note': 'lattice values only; reference implementation in engine/georef.hpp (long double)',
+    },
 }
 
 ENGINES = [
